@@ -1567,6 +1567,20 @@ func putservertext(w io.Writer, a []byte) {
 	}
 }
 
+// write the name of a map record (M, 8): the "*." of a wildcard map is part of
+// the stored name (see makemapkey) and is written as it is, so that the
+// catch-all map "*." does not turn into the name "*"
+func putmapdomtext(w io.Writer, a []byte) {
+	if bytes.HasPrefix(a, []byte("*.")) {
+		_, err := w.Write([]byte("*."))
+		if err != nil {
+			glog.Errorf("%v", err)
+		}
+		a = a[2:]
+	}
+	putdomtext(w, a)
+}
+
 // write a two-byte location ID
 func putloc(w io.Writer, lo Loc) {
 	var err error
